@@ -283,8 +283,46 @@ def board_addressed_sends(P, S, fns=None):
                         li = f.resolve(leaf)
                         if li is not None and li.op == "load" and rules.field_path_of_ptr(P, f, li["ptr"]) == CONNECTED and _board_key(f, li["ptr"]) == bkey:
                             guarded = True
+                if not guarded:
+                    # the test may be recorded in a status variable first (`check = BOARD_NOT_CONNECTED; ... if (check != OK) return`):
+                    # decide on the paths, propagating constants through such locals
+                    from .. import pathwalk
+                    def est(br, succ, facts, f=f, bkey=bkey):
+                        if br.op != "br" or "cond" not in br.d or br["t"] == br.get("f"):
+                            return False
+                        truth = succ == br["t"]
+                        for leaf in c19.leaf_values(f, br["cond"]):
+                            li = f.resolve(leaf)
+                            if li is not None and li.op == "load" and rules.field_path_of_ptr(P, f, li["ptr"]) == CONNECTED and _board_key(f, li["ptr"]) == bkey:
+                                pol = _cond_polarity(f, br["cond"], li)
+                                if pol is not None and pol == truth:
+                                    return True
+                        return False
+                    guarded = pathwalk.guard_on_all_paths(f, c, est) is True
                 out.append((f, c, guarded))
     return out
+
+
+def _cond_polarity(f, cond, leaf_load):
+    """True if `cond` is true exactly when the loaded flag is non-zero, False if negated, None if the condition is not just that flag"""
+    pol = True
+    o = cond
+    for _ in range(8):
+        i = f.resolve(rules.strip_casts(f, o))
+        if i is None:
+            return None
+        if i.id == leaf_load.id:
+            return pol
+        if i.op == "icmp" and rules.const_of(f, i["b"]) == 0 and i["pred"] in ("eq", "ne"):
+            if i["pred"] == "eq":
+                pol = not pol
+            o = i["a"]
+        elif i.op == "xor" and rules.const_of(f, i["b"]) in (1, -1):
+            pol = not pol
+            o = i["a"]
+        else:
+            return None
+    return None
 
 
 def _board_key_of_field(P, f, ptr, field):
